@@ -1,4 +1,4 @@
-import SimbodyProofs.C42_term
+import SimbodyProofs.C42_base
 
 /-!
 # C42 — MultibodyGraphMaker always produces a valid spanning tree (property theorems)
@@ -6,7 +6,7 @@ import SimbodyProofs.C42_term
 Model: `SimbodyModel/C42.lean` (`generate` = `MultibodyGraphMaker::generateGraph`).
 Specification: `SimbodyProofs/C42_defs.lean` (`Valid`, `WF`).  Helper files: `C42_lemmas`, `C42_inv` (structural
 invariant, `addMobilizerForJoint`), `C42_grow`/`C42_grow2` (`growTree`), `C42_outer` (`chooseNewBaseBody`,
-`connectBodyToGround`, outer loop, first loop), `C42_break` (`breakLoops`), `C42_term` (fuel is never exhausted).
+`connectBodyToGround`, outer loop, first loop), `C42_break` (`breakLoops`), `C42_term` (fuel is never exhausted), `C42_base` (must-be-base bodies).
 -/
 namespace C42
 
@@ -142,6 +142,62 @@ theorem no_massless_terminal_master {g : Input} {s : St} (hW : WF g) (h : genera
       ∃ m', s.mobs[i + 1]? = some m' ∧ m'.inb = m.outb :=
   (ok_implies_valid hW h).massless_master
 
+/-- **Must-be-base bodies are honoured — partial.**  Proved under the explicit hypothesis that no input body is
+massless (`NoMassless`) and for bodies that have no input joint to Ground (the documented way to use the flag):
+such a body is mobilized directly off Ground, at level 1.
+What is missing for the full clause: with massless bodies the clause is FALSE in the implementation
+(`base_flag_ignored_witness`, known finding `graph.viaMassless.base_flag`); a proof under the weaker hypothesis
+"no massless body is adjacent to the flagged body" has not been attempted; the remaining cases are carried by the
+implementation-side predicate `base_flag` of the exhaustive/random correspondence. -/
+theorem base_honoured_partial {g : Input} {s : St} (hW : WF g) (hN : NoMassless g) (h : generate g = .ok s)
+    {b : Nat} (hb0 : 0 < b) (hbn : b < g.bodies.length) (hbase : mustBaseOf g b = true)
+    (hnogj : ∀ jt ∈ g.joints, ¬ (jt.parent = b ∧ jt.child = 0) ∧ ¬ (jt.parent = 0 ∧ jt.child = b)) :
+    ∃ m ∈ s.mobs, m.outb = b ∧ m.inb = 0 ∧ m.level = 1 := by
+  have hV := ok_implies_valid hW h
+  have hl1 := base_level_one hW hN h hb0 hbn hbase hnogj
+  have hcount := hV.bodies_once b hb0 (Nat.lt_of_lt_of_le hbn hV.nb_ge)
+  have hmem : b ∈ outbs s := by
+    by_contra hc
+    rw [List.count_eq_zero_of_not_mem hc] at hcount; cases hcount
+  obtain ⟨m, hm, ho⟩ := mem_outbs.mp hmem
+  obtain ⟨hlo, l, hli, hml⟩ := hV.levels m hm
+  rw [ho, hl1] at hlo
+  have hm1 : m.level = 1 := (Option.some.inj hlo).symm
+  refine ⟨m, hm, ho, ?_, hm1⟩
+  -- the inboard body has level 0, hence is Ground: every mobilized body has level ≥ 1
+  have hl0 : l = 0 := by omega
+  subst hl0
+  by_contra hne
+  -- m.inb is in the tree and not Ground, so it is the outboard body of an earlier mobilizer with level ≥ 1
+  have hord := hV.inboard_first
+  have : m.inb ∈ outbs s := by
+    have hall : ∀ (seen : List Nat) (ms : List Mob), OrderedFrom seen ms → ∀ x ∈ ms, x.inb ∈ seen ∨ x.inb ∈ ms.map (·.outb) := by
+      intro seen ms
+      induction ms generalizing seen with
+      | nil => intro _ x hx; cases hx
+      | cons a t ih =>
+        intro ⟨h1, h2⟩ x hx
+        rcases List.mem_cons.mp hx with rfl | hx
+        · left; exact h1
+        · rcases ih _ h2 x hx with h3 | h3
+          · rcases List.mem_cons.mp h3 with h4 | h4
+            · right; simp [h4]
+            · left; exact h4
+          · right; simp only [List.map_cons, List.mem_cons]; right; exact h3
+    rcases hall [0] s.mobs hord m hm with h0 | h0
+    · simp at h0; exact absurd h0 hne
+    · exact h0
+  obtain ⟨m2, hm2, ho2⟩ := mem_outbs.mp this
+  obtain ⟨hlo2, l2, _, hml2⟩ := hV.levels m2 hm2
+  rw [ho2, hli] at hlo2
+  have := Option.some.inj hlo2
+  omega
+
+/-- non-vacuity of `base_honoured_partial`: two massful bodies in a chain, the outer one flagged must-be-base -/
+def exBaseOk : Input :=
+  { userTypes := [⟨1, false⟩], bodies := [⟨0, false⟩, ⟨1, false⟩, ⟨1, true⟩],
+    joints := [⟨2, 0, 1, false, false⟩, ⟨2, 1, 2, false, false⟩] }
+
 /-! ### non-vacuity and negative witnesses (concrete graphs, evaluated by the kernel)
 
 User joint types used below: type 2 = "pin" (1 mobility, no good loop joint). -/
@@ -193,6 +249,10 @@ theorem exLoop_wf : WF exLoop := by
 /-- non-vacuity of `ok_implies_valid`: a legal input on which `generate` succeeds, with a loop broken by a slave
 body (4 mobilizers incl. one slave mobilizer, 5 bodies) -/
 theorem nonvacuous_loop : succeeds exLoop = true ∧ resultSizes exLoop = (4, 0, 5) := by decide
+
+/-- non-vacuity of `base_honoured_partial`: `exBaseOk` has no massless body and succeeds: b1 and b2 both hang off
+Ground (b2 by its added free joint), the pin b1→b2 closes a loop and gets a slave of b2 (3 mobilizers, 4 bodies) -/
+theorem nonvacuous_base : succeeds exBaseOk = true ∧ resultSizes exBaseOk = (3, 0, 4) := by decide
 
 /-- **Negative witness (known finding `graph.slave.massless_terminal`).**  The clause "no massless body with
 mobilities ends a branch" is false for slave fragments: `breakLoops` splits the massless body b1 and mobilizes
